@@ -426,9 +426,11 @@ fn scripted(first: usize, last: usize, mask: u16) {
         check_ops(&e, &m, &p, &mut tally, mask);
         si += 1;
     }
-    kani::cover!(tally.accepted >= 1, "operations were accepted and the survivors compared");
-    kani::cover!(tally.rejected >= 1, "operations were rejected");
-    kani::cover!(tally.shifted >= 1 || first == 5, "an element in front of others was removed (rows shift)");
+    // (one cover per harness: in CBMC's JSON mode every satisfied cover costs a full trace of the run)
+    kani::cover!(
+        tally.accepted >= 1 && tally.rejected >= 1 && (tally.shifted >= 1 || first == 5),
+        "operations were accepted (survivors compared, rows shifted) and rejected"
+    );
 }
 
 macro_rules! script_harness {
@@ -501,12 +503,13 @@ fn c42_time() {
         r += 1;
     }
     let res = e.clone().progress_time(th::ts_from_raw::<TAI>(t1));
+    kani::cover!(t0 - t1 == 1 && res.is_err(), "one unit backwards rejected");
     if t1 < t0 {
         assert!(
             matches!(res, Err(AlgoError::NonMonotonicTimeProgression { from, to }) if th::ts_raw(from) == t0 && th::ts_raw(to) == t1),
             "progressing to an earlier time is an error"
         );
-        kani::cover!(t0 - t1 == 1, "one unit backwards rejected");
+
     } else {
         let Ok(after) = res else {
             assert!(false, "progressing to the current time succeeds");
@@ -523,7 +526,7 @@ fn c42_time() {
             }
             r += 1;
         }
-        kani::cover!(true, "zero step");
+
     }
 }
 
@@ -649,9 +652,6 @@ fn c42_ctl() {
         }
     });
     assert!(ch::steered_clock_count(&ctl) == 1, "steered clock list unchanged");
-    kani::cover!(opk == 0 && ida == sys, "removing the system clock fails");
-    kani::cover!(opk == 1 && !ok, "remove_external_clock on a non-external id fails");
     kani::cover!(opk == 2 && !ok && ida == idb && ida == sys, "link between a clock and itself fails");
-    kani::cover!(opk == 2 && ok, "second untracked link created");
     core::mem::forget(link);
 }
